@@ -73,6 +73,32 @@ example :
     assertOK 7 (outerMask E (1/100) 0 3 7) (frozenMask E (1/100) 0 1 7 []) = true := by
   decide +kernel
 
+/-! ## T1d — explicit `frozen_states` and irreducible k-points -/
+
+/-- the list form freezes the listed bands at EVERY row of the mask array, i.e. at every irreducible k-point whatever
+    its global index -/
+theorem explicit_list_applies_everywhere (l : List Nat) (kptirr : List Nat) (iki : Nat) :
+    explicitFrozen (.all l) kptirr iki = l := rfl
+
+/-- the dictionary form is keyed by the GLOBAL k-point index: band `b` is explicitly frozen at row `iki` iff some entry
+    whose key equals `kptirr[iki]` lists it -/
+theorem explicit_dict_by_global_index (d : List (Nat × List Nat)) (kptirr : List Nat) (iki : Nat) (hk : iki < kptirr.length)
+    (b : Nat) :
+    b ∈ explicitFrozen (.perK d) kptirr iki ↔ ∃ e ∈ d, e.1 = kptirr[iki] ∧ b ∈ e.2 := by
+  unfold explicitFrozen
+  simp only [List.getElem?_eq_getElem hk, List.mem_flatMap, List.mem_filter, beq_iff_eq]
+  constructor
+  · rintro ⟨e, ⟨he, hk⟩, hb⟩; exact ⟨e, he, hk, hb⟩
+  · rintro ⟨e, he, hk, hb⟩; exact ⟨e, ⟨he, hk⟩, hb⟩
+
+/-- counterexample for "position in the irreducible list": rewriting the list form as a dictionary over the positions
+    `0 … NKirr−1` is NOT the same thing once the irreducible k-points are not the first ones (`kptirr = [0, 1, 3]`,
+    diamond 2×2×2): the third irreducible point (global index 3) loses its explicitly frozen bands -/
+theorem list_form_is_not_dict_over_positions :
+    explicitFrozen (.all [0, 1, 2, 3]) [0, 1, 3] 2 = [0, 1, 2, 3] ∧
+    explicitFrozen (.perK [(0, [0, 1, 2, 3]), (1, [0, 1, 2, 3]), (2, [0, 1, 2, 3])]) [0, 1, 3] 2 = [] := by
+  decide
+
 /-! ## T2–T4 — the returned matrix -/
 
 section
